@@ -16,6 +16,14 @@ Decided clause:
        other cipher state without the LO word also being in the cone - lanes of one vector are
        consecutive blocks, so a high word that cannot have been influenced by the low word has no
        carry; (b) R3.2-wb: every write-back of the HI word depends (data or control) on the LO word.
+  R3.3 no lost block (E1 on every stream backend): on every returning path, data written into a
+       local bounce buffer (the partial-block buffers `tmp` / `partialblock` / `block`) is read
+       again before the function returns - keystream stored into a local that is never copied
+       out cannot reach the caller's buffer.
+  R3.5 the byte-wise 64-bit block counters of the portable Salsa20 / Salsa20/12 / Salsa20/8 code carry
+       continuously: the loop-carried carry is recomputed from its previous value.
+  R3.4 (E12 known-bits, contradiction rule) no carry / shifted value in the stream units is identically
+       zero (byte-wise counter increments of the portable Salsa20 code included).
 NOT decided: keystream bytes, the arithmetic of the per-lane additions, offset equivalence, the
 byte-wise counters of the portable Salsa20 reference code and the arithmetic exactness of the
 guard's threshold.
@@ -128,6 +136,16 @@ def run(ctx, chk):
     chk.floor("R3.1-who", "call sites of the extended-counter functions", ncall, 5)
 
     carry_rule(prog, chk)
+    bounce_rule(prog, chk)
+    # R3.4: no identically-zero carry in the counter arithmetic of the stream units (E12; byte-wise counters of the
+    # portable Salsa20 code: u += in[i]; in[i] = u; u >>= 8)
+    from .. import knownbits
+    knownbits.dead_carry_rule(prog, chk, "R3.4", ("crypto_stream/",), floor=5)
+    # R3.5: the byte-wise block counters of the portable Salsa20 family carry continuously (u += in[i]; in[i] = u; u >>= 8)
+    knownbits.carry_continuity_rule(prog, chk, "R3.5", [
+        ("stream_ref", "crypto_stream/salsa20/ref/"), ("stream_ref_xor_ic", "crypto_stream/salsa20/ref/"),
+        ("crypto_stream_salsa2012", "crypto_stream/salsa2012/"), ("crypto_stream_salsa2012_xor", "crypto_stream/salsa2012/"),
+        ("crypto_stream_salsa208", "crypto_stream/salsa208/"), ("crypto_stream_salsa208_xor", "crypto_stream/salsa208/")], floor=4)
 
 
 # (stream function, the function that installs nonce and counter, unit substring). The two counter words are read from
@@ -237,3 +255,90 @@ def carry_rule(prog, chk):
     chk.floor("R3.2-wb", "stream backends with a 64-bit block counter", nfn, 4)
     chk.floor("R3.2-wb", "write-backs of the high counter word", nwb, 9)
     chk.floor("R3.2-lane", "vector operations downstream of the high counter word", nvec, 100)
+
+
+BOUNCE_BACKENDS = (("chacha20_encrypt_bytes", "chacha20/ref/"), ("chacha20_encrypt_bytes", "chacha20_dolbeau-ssse3"),
+                   ("chacha20_encrypt_bytes", "chacha20_dolbeau-avx2"), ("salsa20_encrypt_bytes", "salsa20_xmm6int-avx2"),
+                   ("salsa20_encrypt_bytes", "salsa20_xmm6int-sse2"), ("stream_ref", "salsa20/ref/"),
+                   ("stream_ref_xor_ic", "salsa20/ref/"))
+WIPES = ("sodium_memzero", "memset", "llvm.memset", "explicit_bzero")
+
+
+def bounce_rule(prog, chk):
+    cg = prog.callgraph()
+    rr = cg.ranges()
+    n = nfn = 0
+    for name, usub in BOUNCE_BACKENDS:
+        fns = [f for f in prog.functions() if f.name == name and usub in f.unit and not f.decl]
+        if not fns:
+            continue
+        fn = fns[0]
+        bufs = {("alloca", i) for i, ins in enumerate(fn.insts) if ins["op"] == "alloca" and ins.get("size", 0) >= 32
+                and ins.get("aty", "").startswith("[")}
+        if not bufs:
+            continue
+        nfn += 1
+        # loops whose body reads a bounce buffer: reaching such a loop after the write is the copy-out (a zero-trip
+        # exit means there were zero bytes to copy - the loop-head havoc of E1 cannot exclude it)
+        from ..cone import Cones
+        cn = Cones(fn, prog)
+        read_loops = {}
+        for i, ins in enumerate(fn.insts):
+            if ins["op"] not in ("load", "call"):
+                continue
+            lp = fn.blocks[ins["b"]].get("loop")
+            if not lp:
+                continue
+            cand = [ins["ops"][0]] if ins["op"] == "load" else [o for o in ins.get("ops", ()) if o[0] == "v"]
+            for o in cand:
+                if o[0] == "v" and not fn.insts[o[1]]["ty"].endswith("*"):
+                    continue
+                for r0 in cn.roots(o):
+                    r0 = ("alloca", r0[1]) if r0[0] == "v" else None
+                    if r0 in bufs:
+                        read_loops.setdefault(r0, set()).add(lp)
+        for p in cm.paths(prog, fn):
+            if p.kind != "ret":
+                continue
+            last_w, last_r = {}, {}
+            for e in p.events:
+                if e.kind == "store":
+                    r = T.root(e.addr)
+                    if r in bufs and e.val[0] != "c":
+                        last_w[r] = e
+                elif e.kind == "load":
+                    r = T.root(e.addr)
+                    if r in bufs:
+                        last_r[r] = e
+                elif e.kind == "call":
+                    nm = e.callee_name() or ""
+                    for k, a in enumerate(e.args):
+                        r = T.root(a)
+                        if r not in bufs:
+                            continue
+                        if nm.startswith(WIPES):
+                            continue
+                        reads = writes = True
+                        if e.callee[0] == "fn":
+                            reads = bool(rr.reads(e.callee[1], k))
+                            writes = bool(rr.writes(e.callee[1], k))
+                        elif nm.startswith(("llvm.memcpy", "llvm.memmove", "memcpy", "memmove")):
+                            reads, writes = k == 1, k == 0
+                        if reads:
+                            last_r[r] = e
+                        if writes:
+                            last_w[r] = e
+            for r, w in last_w.items():
+                n += 1
+                rd = last_r.get(r)
+                ok = rd is not None and rd.idx > w.idx
+                if not ok:
+                    for e in p.events[w.idx + 1:]:
+                        blk = fn.blocks[fn.insts[e.iid]["b"]]
+                        if blk.get("loophdr") and blk.get("loop") in read_loops.get(r, ()):
+                            ok = True
+                chk.ob("R3.3", fn, "data written into the local buffer %s is read again before the return" % T.show(r, fn), ok,
+                       loc=fn.loc(w.iid), detail="" if ok else "last data write at %s, no later read on this path: the block never "
+                       "reaches the output" % fn.loc(w.iid), path=None if ok else p, key="R3.3 %s %s" % (name, usub))
+    chk.floor("R3.3", "stream backends with a local bounce buffer", nfn, 4)
+    chk.floor("R3.3", "(path, bounce buffer) pairs with a data write", n, 6)
